@@ -79,7 +79,7 @@ def realize(desc, d: Path):
         for k, times in enumerate(desc["files"]):
             # every file has its own time reference (as files produced by different model runs have)
             rf.write_roms(fdir / f"ocean_{k:03d}.nc", imax=imax, jmax=jmax, N=2, times=times, u=0.0, v=0.0,
-                          time_ref_shift=REF_SHIFTS[k % len(REF_SHIFTS)])
+                          time_ref_shift=REF_SHIFTS[k % len(REF_SHIFTS)], time_unit=["s", "h", "d"][(k + len(times)) % 3])
     if desc["forcing_single_name"] and len(desc["files"]) == 1:
         fpattern = str(fdir / "ocean_000.nc")
     else:
